@@ -7,7 +7,7 @@ namespace CifModel.Lemmas.Ladder
 open CifModel.Model.Ladder CifModel.Spec.HeapTrace
 
 /-- rearrangement of list expressions up to permutation -/
-macro "perm_ac" : tactic => `(tactic| (rw [List.perm_iff_count]; intro x; (try simp only [List.count_cons, List.count_append, List.count_nil, List.append_assoc, List.cons_append, List.nil_append, List.reverse_nil, List.append_nil, Option.toList, Owned.ids, Owned.idsList]) <;> omega))
+macro "perm_ac" : tactic => `(tactic| (rw [List.perm_iff_count]; intro x; (try simp only [List.count_cons, List.count_append, List.count_nil, List.append_assoc, List.cons_append, List.nil_append, List.reverse_nil, List.append_nil, List.map_cons, List.map_nil, Option.toList, Owned.ids, Owned.idsList]) <;> omega))
 
 theorem idsList_append (a b : List Owned) : Owned.idsList (a ++ b) = Owned.idsList a ++ Owned.idsList b := by
   induction a with
@@ -229,83 +229,60 @@ theorem insertElement_spec (k : Nat) (full : Bool) (sh : Shape) (s : St) (L : Li
     exact ⟨trivial, trivial, h2.mono (by omega), h3⟩
 
 -- ---------------------------------------------------------------------------------------------------------------
--- cif_value_set_element_at: clone into an existing target
+-- cif_value_set_element_at: clone into an existing target (via a scratch object, /repo f1b092b)
 
-/-- `cloneExisting`: either every request succeeds and exactly the gained blocks are added to `L`, or the fault position
-    is hit and everything obtained so far is released exactly once (the target object is not touched) -/
-theorem cloneExisting_spec (k : Nat) : ∀ (sh : Shape) (s : St) (L : List Nat), Inv s L →
-    (∃ g, (cloneExisting k sh s).1 = some g ∧ Good k (allocs sh) s (cloneExisting k sh s).2 ∧
-        Inv (cloneExisting k sh s).2 (g ++ L)) ∨
-    ((cloneExisting k sh s).1 = none ∧ Bad k (allocs sh) s (cloneExisting k sh s).2 ∧ Inv (cloneExisting k sh s).2 L)
-  | .scalar, s, L, h => by
-    left
-    simp only [cloneExisting, allocs]
-    exact ⟨_, rfl, Good.refl k s, h⟩
-  | .chr, s, L, h => by
-    simp only [cloneExisting, allocs]
-    rcases alloc_cases k s with ⟨hk, ha⟩ | ⟨hk, ha⟩ <;> simp only [ha]
-    · right
-      exact ⟨trivial, Bad.alloc hk, h.fail⟩
-    · left
-      exact ⟨_, rfl, Good.alloc hk, h.alloc⟩
-  | .numb hasSu, s, L, h => by
-    simp only [cloneExisting, allocs]
-    rcases alloc_cases k s with ⟨hk, ha⟩ | ⟨hk, ha⟩ <;> simp only [ha]
-    · right
-      exact ⟨trivial, (Bad.alloc hk).mono (by split <;> omega), h.fail⟩
-    · have g1 := Good.alloc hk
-      have i1 := h.alloc
-      generalize ({ count := s.count + 1, evs := s.evs ++ [.alloc (s.count + 1)] } : St) = s1 at g1 i1 ⊢
-      generalize s.count + 1 = t at g1 i1 ⊢
-      rcases alloc_cases k s1 with ⟨hk, ha⟩ | ⟨hk, ha⟩ <;> simp only [ha]
-      · right
-        exact ⟨trivial, g1.bad' ((Bad.alloc hk).free _) (by split <;> omega), Inv.free i1.fail⟩
-      · have g2 := g1.trans (Good.alloc hk)
-        have i2 := i1.alloc
-        generalize ({ count := s1.count + 1, evs := s1.evs ++ [.alloc (s1.count + 1)] } : St) = s2 at g2 i2 ⊢
-        generalize s1.count + 1 = d at g2 i2 ⊢
-        cases hasSu with
-        | false =>
-          left
-          exact ⟨_, rfl, g2, i2.perm (by perm_ac)⟩
-        | true =>
-          simp only [if_true]
-          rcases alloc_cases k s2 with ⟨hk, ha⟩ | ⟨hk, ha⟩ <;> simp only [ha]
-          · right
-            exact ⟨trivial, g2.bad' (((Bad.alloc hk).free _).free _) (by omega), Inv.free (Inv.free i2.fail)⟩
-          · left
-            exact ⟨_, rfl, g2.trans (Good.alloc hk), i2.alloc.perm (by perm_ac)⟩
-  | .lst es, s, L, h => by
-    simp only [cloneExisting, allocs]
-    rcases alloc_cases k s with ⟨hk, ha⟩ | ⟨hk, ha⟩ <;> simp only [ha]
-    · right
-      exact ⟨trivial, (Bad.alloc hk).mono (by omega), h.fail⟩
-    · have g1 := Good.alloc hk
-      have i1 := h.alloc
-      generalize ({ count := s.count + 1, evs := s.evs ++ [.alloc (s.count + 1)] } : St) = s1 at g1 i1 ⊢
-      generalize s.count + 1 = arr at g1 i1 ⊢
-      have hh := cloneElems_spec k es [] s1 (arr :: L) (by simpa [Owned.idsList] using i1)
-      generalize cloneElems k es [] s1 = r at hh ⊢
-      obtain ⟨ro, rs⟩ := r
-      rcases hh with ⟨os, h1, h2, h3⟩ | ⟨h1, h2, h3⟩ <;> simp only at h1 h2 h3 <;> subst h1 <;> simp only
-      · left
-        exact ⟨_, rfl, g1.trans h2, h3.perm (by perm_ac)⟩
-      · right
-        exact ⟨trivial, g1.bad' (h2.free _) (by omega), h3.free⟩
+theorem ids_eq_obj_parts (o : Owned) : o.ids = o.obj :: o.parts := by
+  cases o <;> simp [Owned.ids, Owned.obj, Owned.parts]
 
-/-- `cif_value_set_element_at`, from any consistent state -/
-theorem setElement_spec (k : Nat) (sh : Shape) (s : St) (L : List Nat) (h : Inv s L) :
-    (∃ g, (setElement k sh s).1 = OK ∧ (setElement k sh s).2.1 = some g ∧
-        Good k (allocs sh) s (setElement k sh s).2.2 ∧ Inv (setElement k sh s).2.2 (g ++ L)) ∨
-    ((setElement k sh s).1 = MEMORY_ERROR ∧ (setElement k sh s).2.1 = none ∧
-        Bad k (allocs sh) s (setElement k sh s).2.2 ∧ Inv (setElement k sh s).2.2 L) := by
+/-- `cif_value_clean` releases exactly the component blocks, each while live; the object stays -/
+theorem cleanOwned_spec (o : Owned) (s : St) (L : List Nat) (h : Inv s (o.parts ++ L)) :
+    Inv (cleanOwned o s) L ∧ Same s (cleanOwned o s) := by
+  cases o with
+  | scalar o => exact ⟨by simpa [Owned.parts, cleanOwned] using h, Same.refl s⟩
+  | chr o t =>
+    simp only [cleanOwned]
+    exact ⟨Inv.free (h.perm (by simp only [Owned.parts]; perm_ac)), (Same.refl s).free _⟩
+  | numb o t d su =>
+    cases su with
+    | none =>
+      simp only [cleanOwned]
+      have h1 : Inv s (t :: d :: L) := h.perm (by simp only [Owned.parts]; perm_ac)
+      exact ⟨h1.free.free, ((Same.refl s).free _).free _⟩
+    | some u =>
+      simp only [cleanOwned]
+      have h1 : Inv s (t :: d :: u :: L) := h.perm (by simp only [Owned.parts]; perm_ac)
+      exact ⟨h1.free.free.free, (((Same.refl s).free _).free _).free _⟩
+  | lst o a es =>
+    simp only [cleanOwned]
+    have h1 : Inv s (Owned.idsList es ++ (a :: L)) := h.perm (by simp only [Owned.parts]; perm_ac)
+    have ⟨h2, h3⟩ := freeOwnedRev_spec es s _ h1
+    exact ⟨h2.free, h3.free _⟩
+
+/-- `cif_value_set_element_at` from any consistent state in which the target `old` is live: on success the target
+    object owns exactly the new components (the old ones and the scratch object are released, each once); on failure
+    everything obtained in the call is released and ALL blocks of the target are still live -/
+theorem setElement_spec (k : Nat) (old : Owned) (sh : Shape) (s : St) (L : List Nat) (h : Inv s (old.ids ++ L)) :
+    (∃ g, (setElement k old sh s).1 = OK ∧ (setElement k old sh s).2.1 = some g ∧
+        Good k (1 + allocs sh) s (setElement k old sh s).2.2 ∧
+        Inv (setElement k old sh s).2.2 (old.obj :: g ++ L)) ∨
+    ((setElement k old sh s).1 = MEMORY_ERROR ∧ (setElement k old sh s).2.1 = none ∧
+        Bad k (1 + allocs sh) s (setElement k old sh s).2.2 ∧ Inv (setElement k old sh s).2.2 (old.ids ++ L)) := by
   simp only [setElement]
-  have hh := cloneExisting_spec k sh s L h
-  generalize cloneExisting k sh s = r at hh ⊢
+  have hh := clone_spec k sh s _ h
+  generalize clone k sh s = r at hh ⊢
   obtain ⟨ro, rs⟩ := r
-  rcases hh with ⟨g, h1, h2, h3⟩ | ⟨h1, h2, h3⟩ <;> simp only at h1 h2 h3 <;> subst h1 <;> simp only
+  rcases hh with ⟨o, h1, h2, h3⟩ | ⟨h1, h2, h3⟩ <;> simp only at h1 h2 h3 <;> subst h1 <;> simp only
   · left
-    exact ⟨g, by trivial, by trivial, h2, h3⟩
+    have i1 : Inv rs (old.parts ++ (o.obj :: (old.obj :: o.parts ++ L))) := by
+      rw [ids_eq_obj_parts o, ids_eq_obj_parts old] at h3
+      exact h3.perm (by perm_ac)
+    have ⟨c1, c2⟩ := cleanOwned_spec old rs _ i1
+    refine ⟨o.parts, by trivial, by trivial, ?_, c1.free⟩
+    have g : Good k (1 + allocs sh) s (free o.obj (cleanOwned old rs)) := by
+      unfold Good at h2 ⊢
+      have := (c2.free o.obj)
+      rw [this.1, this.2]; exact h2
+    exact g
   · right
     exact ⟨by trivial, by trivial, h2, h3⟩
 
